@@ -190,6 +190,8 @@ func callSafe(fn starlark.Value, args starlark.Tuple) (res V) {
 	defer func() {
 		if e := recover(); e != nil {
 			res = V{T: "panic", M: fmt.Sprint(e)}
+			// the panic unwound through the interpreter: do not reuse its thread
+			thread = &starlark.Thread{Name: "c13"}
 		}
 	}()
 	r, err := starlark.Call(thread, fn, args, nil)
